@@ -628,8 +628,13 @@ func runFieldProbe(in Input, p *proj) kit.Case {
 	}
 
 	verdict, how := 0, ""
+	// pe, pts: the probed objects of the case; ce, cts: their terms, printed before the objects are handed to any code
 	var pe *experimentsv1beta1.Experiment
 	var pts []trialsv1beta1.Trial
+	var ce, cts string
+	keep := func(e *experimentsv1beta1.Experiment, ts []trialsv1beta1.Trial) {
+		pe, pts, ce, cts = e, ts, cExperiment(e), cTrials(ts)
+	}
 	var ft reflect.Type
 	for _, t := range c10api.APIStructs() {
 		if t.Name() == in.Struct {
@@ -641,7 +646,8 @@ func runFieldProbe(in Input, p *proj) kit.Case {
 	switch {
 	case ft == nil:
 		c.GoViol = "no field " + in.Struct + "." + in.Field + " in the current tree"
-		pe, pts, _ = baseObjects()
+		be, bts, _ := baseObjects()
+		keep(be, bts)
 	case enumOf(ft) != nil:
 		how = "enum-typed: every declared value"
 		seen := map[string]bool{}
@@ -650,15 +656,17 @@ func runFieldProbe(in Input, p *proj) kit.Case {
 		for _, val := range vals {
 			val := val
 			e, ts, s, _ := apply(func(f reflect.Value) { f.SetString(val) })
+			ce1, cts1 := cExperiment(e), cTrials(ts)
 			txt := sendAll(e, ts, s).text
 			seen[txt] = true
 			if txt != base.text {
 				changed = true
-				pe, pts = e, ts
+				pe, pts, ce, cts = e, ts, ce1, cts1
 			}
 		}
 		if pe == nil {
-			pe, pts, _ = baseObjects()
+			be, bts, _ := baseObjects()
+			keep(be, bts)
 		}
 		if len(seen) == len(vals) {
 			verdict = 2
@@ -668,7 +676,7 @@ func runFieldProbe(in Input, p *proj) kit.Case {
 	case listed[elemStruct(ft)]:
 		how = "holds a named struct: dropped"
 		e, ts, s, _ := apply(func(f reflect.Value) { f.Set(reflect.Zero(f.Type())) })
-		pe, pts = e, ts
+		keep(e, ts)
 		if sendAll(e, ts, s).text != base.text {
 			verdict = 2
 		}
@@ -681,7 +689,7 @@ func runFieldProbe(in Input, p *proj) kit.Case {
 			one.fill(f, 0)
 			strsQ, nums = one.strs, one.nums
 		})
-		pe, pts = e, ts
+		keep(e, ts)
 		txt := sendAll(e, ts, s).text
 		if n == 0 {
 			c.GoViol = "the base objects contain no " + in.Struct
@@ -692,7 +700,7 @@ func runFieldProbe(in Input, p *proj) kit.Case {
 			verdict = 1
 		}
 	}
-	ce, cts := cExperiment(pe), cTrials(pts)
+	// the conversions below run on objects the three entry points have already seen once (sendAll above)
 	_, oute, _ := runExp(pe, p)
 	_, outts, _ := runTrials(pts, p)
 	c.Coq = fmt.Sprintf("C10.CField %s %s %s %s %s %s %s", kit.Str(in.Struct), kit.Str(in.Field), kit.Nat(verdict), ce, cts, oute, outts)
